@@ -1,6 +1,6 @@
 #!/bin/sh
 # Re-runs the reviewers' probe patches (reviews/*.diff): property-preserving ones must PASS (rc=0), defect-bearing ones
-# must be REPORTED (rc=1). Scratch worktrees only. ~25 minutes.
+# must be REPORTED (rc=1). Scratch worktrees only. ~45 minutes.
 HERE="$(cd "$(dirname "$0")/.." && pwd)"
 export VERIF_SHRINK_S=4
 bad=0
@@ -40,4 +40,22 @@ run 0 D_A2_socket_error_is_eof 4000 C11
 run 0 D_A3_warn_once_per_apid 4000 C11
 run 1 D_B1_retransmission_filter 4000 C11
 run 1 D_B2_types_memo_by_space_system_name 3000 C16
+run 1 E_c1_socket_default_minus1 4000 C02 C10
+run 0 E_c2_open_by_descriptor - C19
+run 0 E_fa1_file_prefetch_topup 4000 C02 C10
+run 0 E_fa1_file_prefetch_topup - C19
+run 0 E_fa2_rawpacketdata_bytearray 4000 C02 C10
+run 0 E_fa3_oor_message_via_logging - C19
+run 0 E_fa4_parse_prints_header_then_packet - C19
+run 0 E_fa5_ellipsis_row_single_cell - C19
+run 1 E_b2_info_summary_guarded_by_isEnabledFor - C19
+run 1 E_b2_info_summary_guarded_by_isEnabledFor 4000 C10
+run 0 F_fa1_public_cached_property 2000 C11 C16
+run 0 F_fa2_ambiguous_error_class 3000 C11
+run 0 F_fa4_orphan_warning_once_per_apid 20000 C12
+run 1 F_bs1_length_warning_rate_limit_32 - C11
+run 1 F_bs2_skip_filter_uses_last_segment - C11
+run 1 F_bs3_raw_child_iteration_float_string_enums - C16
+run 1 F_bs4_root_container_name_stored_on_definition - C11
+run 1 F_c1_negative_recv_size 3000 C02 C11
 exit $bad
